@@ -8,7 +8,7 @@ from .meshlib import PyMesh, canon, dump_leaves, dump_mesh, enc, oracle_mesh
 
 # the repaired refine_grading skips elements that are no longer leaves (fix: commit in /repo); the model is run
 # in the same mode
-GRADING_FIXED = 0
+GRADING_FIXED = 1
 
 INITIAL_GRIDS = [
     # (glue, X, T)
